@@ -278,7 +278,17 @@ func (c *Ctx) familyPairing() {
 				return false
 			}
 			rel := f.Rel()
-			return rel.Op == token.EQL && IsNilConst(rel.Y) && fieldLoadName(rel.X) == fam
+			x := rel.X
+			for d := 0; d < 3; d++ {
+				// the store narrowed to a local read-only interface is the same store
+				switch ci := x.(type) {
+				case *ssa.ChangeInterface:
+					x = ci.X
+				case *ssa.ChangeType:
+					x = ci.X
+				}
+			}
+			return rel.Op == token.EQL && IsNilConst(rel.Y) && fieldLoadName(x) == fam
 		}}
 		if p := q.Find(); p != nil {
 			r.Bad("C11.family", FuncName(lcs), "ReadState("+fam+") on every path", posf(c, reads[0]), "the request can be handed on without the "+fam+" store having been read although one is configured (for example because the other family had no state): handlers then see no "+strings.ToLower(strings.TrimSuffix(fam, "State"))+" state for this request", c.P.DescribePath(p)...)
